@@ -218,6 +218,25 @@ mod verif_replay_c15b {
                 return;
             }
         }
+        // second delivery for the JSON extractor: the script's bytes as the body itself, judged against the
+        // parser Pavex documents it uses (serde_json::from_slice on the same bytes must agree on
+        // success / failure and on the value) - this is how an empty or otherwise special body is reached
+        if extractor == "json" && !fails && !trailing {
+            if let Some(h) = header.as_deref().filter(|h| *h != "<not-ascii>").filter(|h| is_json(h) == Some(true)) {
+                let raw = bytes.clone().unwrap_or_default();
+                let mut hm = http::HeaderMap::new();
+                hm.append(http::header::CONTENT_TYPE, http::HeaderValue::from_str(h).unwrap());
+                let head = RequestHead { method: http::Method::POST, target: "/".parse().unwrap(), version: http::Version::HTTP_11, headers: hm };
+                let body = BufferedBody { bytes: bytes::Bytes::from(raw.clone()) };
+                let want: Result<serde_json::Value, _> = serde_json::from_slice(&raw);
+                let got = JsonBody::<serde_json::Value>::extract(&head, &body);
+                match (&want, &got) {
+                    (Ok(w), Ok(g)) if *w == g.0 => {}
+                    (Err(_), Err(ExtractJsonBodyError::DeserializationError(_))) => {}
+                    _ => problems.push(format!("raw body {raw:?}: serde_json::from_slice says {:?}, the extractor says {:?}", want.as_ref().map_err(|e| e.to_string()), got.as_ref().map(|g| &g.0).map_err(|e| e.to_string()))),
+                }
+            }
+        }
         if problems.is_empty() {
             println!("C15B-REPLAY NOT-REPRODUCED the real extractor behaves as documented on this script");
         } else {
